@@ -362,10 +362,12 @@ impl ByteSeries {
         data: &mut Vec<<R as Decoder>::Item>,
         skip_corrupt_meta: bool,
     ) -> Result<(), Error> {
+        // the number of bytes can not be used here, a lower resolution can
+        // need more meta sections and be larger
         assert!(
             self.downsampled
                 .windows(2)
-                .all(|w| w[0].data().data_len >= w[1].data().data_len),
+                .all(|w| w[0].data().len() >= w[1].data().len()),
             "downsampled must be sorted in descending resolution/numb lines"
         );
 
